@@ -635,14 +635,11 @@ def _decoder_na_structural(program, n, signed):
 
 def decoder_wrap(program, n):
     """the constant subtracted by the decoder's sign extension (read off the residual, else found by evaluating it on raw values with the sign bit set)"""
-    w = _decoder_wrap_structural(program, n)
-    if w is not None:
-        return w
     from . import teval
     try:
         out, _ = _decoder_points(program, n, True)
     except (teval.EvalUnknown, KeyError, TypeError):
-        return None
+        return _decoder_wrap_structural(program, n)       # the subtraction found in the residual (its condition is HELP-DEC's business)
     ws = {q - r[1] for q, r in out.items() if q >= (1 << (n - 1)) and r[0] == 'return' and isinstance(r[1], int) and not isinstance(r[1], bool)}
     low_ok = all(r[0] != 'return' or r[1] is None or r[1] == q for q, r in out.items() if q < (1 << (n - 1)))
     return ws.pop() if len(ws) == 1 and low_ok else None
